@@ -720,7 +720,7 @@ SPEC = Spec(
                                                for s in c['steps']['steps']], sort_keys=True),
     features=features,
     nontrivial=lambda c, f: 'object-returned-from-c++' in f and 'calls-after-a-delete' in f or
-    'unload-with-live-handles' in f and 'inheritance' in f,
+    'unload-with-live-handles' in f and 'inheritance' in f or 'two-handles-one-object' in f,
     rule="Hypothesis draws a module from the executable MATLAB profile (classes with "
          "constructors incl. trailing defaults, methods, static methods, properties, free "
          "functions, inheritance chains, namespaces; bool/char/int/size_t/double/string and "
@@ -735,8 +735,11 @@ SPEC = Spec(
          "taken, this, argument values, omitted defaults), results, every collector's size == "
          "number of live handles of that class (ancestors included), live C++ objects == objects "
          "owned by live handles, nothing left after unload; a crash (double free) fails the "
-         "case. Non-trivial: an object returned from C++ and calls after a delete, or unload "
-         "with live handles in an inheritance chain.",
+         "case. Callables of the mock library that take and return a shared pointer of one "
+         "class hand back their argument, so a history can hold two handles on one C++ object "
+         "(the model counts distinct objects, the collectors count handles). Non-trivial: an "
+         "object returned from C++ and calls after a delete, or unload with live handles in an "
+         "inheritance chain, or two handles on one object.",
     budget={'quick': 3, 'thorough': 48},
     size=lambda c: len(R.text(c['m'])) + 40 * len(c['steps']['steps']),
     sample_fn=lambda c: {'text': R.text(c['m'])[:900],
